@@ -20,4 +20,26 @@ PROPS = {
         'assumptions': ["slice aliasing of ReadBytes results is not modelled",
                         "negative widths (Go panics) are outside the property's quantifier"],
     },
+    'C07': {
+        'level': 'proof',
+        'coq': ['Properties/C07.v'],
+        'coq_gen': ['Properties/C07_gen.v'],
+        'rule': ("byte strings fed to boc.DeserializeBoc in a child process (address-space limit, 20 s timeout): valid "
+                 "seeds (own output with the 8 option combinations, an independent reference serialiser with every "
+                 "header variant: three magics, index, CRC, cache bits, over-wide size/offset fields, stored hashes, "
+                 "multi-root; wallet code BOCs; real blocks), every truncation, single-byte substitutions (header "
+                 "positions x 19 boundary values, body sampled), hand-built adversarial headers (huge counts and "
+                 "widths, out-of-range root/ref indices, self/backward refs, hash-carrying and exotic cells without "
+                 "data, depth 1023/1024/1025 chains), a size x off_bytes x count grid, random multi-byte mutations, "
+                 "random bytes. Compared with the model: outcome class and, per root, hash, depth, level, bit size, "
+                 "ref count, exotic flag, type. Oracle on the implementation: no crash/timeout, returned cells have "
+                 "<= 1023 bits, <= 4 non-nil refs, printing and re-serialising terminate and re-parse. A class is "
+                 "(stream, position/size bucket, outcome)."),
+        'explanation': ("coq/Properties/C07.v: the model of the (repaired) parser never returns Panic, allocates at most "
+                        "a*len+b bytes in its modelled make() calls, and every successful parse yields cells with <= 1023 "
+                        "bits, <= 4 refs, references strictly forward and in range, roots in range, so that the unfolding "
+                        "to a tree (hence hashing/printing/serialising by recursion over it) is total."),
+        'assumptions': ["the Go allocator, stack and scheduler are runtime; allocation is modelled as the sum of make() capacities",
+                        "Hash() of a cell whose exotic payload is malformed is outside this property (C02 assumes well-formed exotic cells)"],
+    },
 }
